@@ -426,14 +426,15 @@ func vCaseC10(t *rapid.T, st *verifkit.Stats) {
 	}
 
 	// the prune under observation
+	pruneComp := setComp()
 	popts := PruneOptions{MaxUnused: rapid.SampledFrom([]string{"0", "0", "0%", "0k"}).Draw(t, "maxunused")}
 	if h.Version == "2" && e.gopts.Compression != repository.CompressionOff && rapid.IntRange(0, 3).Draw(t, "repackUncompressed") == 0 {
 		popts.RepackUncompressed = true
 	}
 	popts.SmallPackSize = rapid.SampledFrom([]string{"", "", "", "1k", "2M"}).Draw(t, "smaller")
 	h.PruneOpts = []string{popts.MaxUnused, fmt.Sprint(popts.RepackUncompressed), popts.SmallPackSize}
-	if c := setComp(); c != "" {
-		h.PruneOpts = append(h.PruneOpts, c)
+	if pruneComp != "" {
+		h.PruneOpts = append(h.PruneOpts, pruneComp)
 	}
 
 	stats, out, err := vRunPruneC10(e, popts)
